@@ -71,7 +71,7 @@ func main() {
 	for i := 0; i < nDir; i++ {
 		jobs = append(jobs, job{"directed", i})
 	}
-	nBig := c.Pick(1, 6)
+	nBig := c.Pick(1, 4)
 	for i := 0; i < nBig; i++ {
 		// first in the list: the longest cases
 		jobs = append([]job{{"big", i}}, jobs...)
@@ -156,6 +156,9 @@ func main() {
 	}
 	if c.Counter("flushes_parked_with_queries_inside") < 5 {
 		c.Inconclusive("only %d flushes were parked with queries inside", c.Counter("flushes_parked_with_queries_inside"))
+	}
+	if c.Counter("big_queries_over_2_series_containers_in_memory") < 10 {
+		c.Inconclusive("only %d queries ran over a memory database with 2 series containers of one metric", c.Counter("big_queries_over_2_series_containers_in_memory"))
 	}
 	if c.Counter("multi_field_queries_over_a_single_field_block") < 3 {
 		c.Inconclusive("only %d multi-field queries ran over a single-field table block", c.Counter("multi_field_queries_over_a_single_field_block"))
